@@ -3479,3 +3479,42 @@ func E5GlyphStringEscapes(c *core.Ctx, r *core.Report) {
 	r.Count("E5.glyph-string-escapes", n)
 	r.Floor("E5.glyph-string-escapes", 20)
 }
+
+// E5FunctionDictNeverEmpty: the function of a shading is a function dictionary on every path.
+func E5FunctionDictNeverEmpty(c *core.Ctx, r *core.Report) {
+	r.Rule("E5.function-dict-never-empty", "a shading dictionary requires a /Function; patternStopsFunction builds it from the colour stops. Every return of that function hands back a dictionary that has a FunctionType: a composite literal with that key, the result of the helper that builds one, or an element of the list of such results — never an empty pdfDict literal (which a gradient of one stop used to get: `/Function<<>>` is no function dictionary, and the page's pattern resource is malformed)")
+	p := c.MustPkg(pdfRel)
+	info := p.TypesInfo
+	fd := core.MustFuncDecl(p, "patternStopsFunction")
+	r.Func("pdf.patternStopsFunction")
+	n := 0
+	ast.Inspect(fd.Body, func(m ast.Node) bool {
+		rs, ok := m.(*ast.ReturnStmt)
+		if !ok || len(rs.Results) != 1 {
+			return true
+		}
+		n++
+		key := fmt.Sprintf("pdf.patternStopsFunction|return #%d is a function dictionary", n)
+		res := core.Unparen(rs.Results[0])
+		if cl, ok := res.(*ast.CompositeLit); ok {
+			has := false
+			for _, el := range cl.Elts {
+				if kv, ok := el.(*ast.KeyValueExpr); ok {
+					if s, isConst := constString(info, kv.Key); isConst && s == "FunctionType" {
+						has = true
+					}
+				}
+			}
+			if has {
+				r.OK("E5.function-dict-never-empty", key, c.Pos(rs.Pos()), "literal with FunctionType")
+			} else {
+				r.Fail("E5.function-dict-never-empty", key, c.Pos(rs.Pos()), fmt.Sprintf("`%s` is a dictionary without a FunctionType: the shading is written with a /Function that is no function dictionary (ISO 32000-1 §8.7.4.5 requires one), so the pattern resource of the page is malformed", c.Src(rs)))
+			}
+			return true
+		}
+		r.OK("E5.function-dict-never-empty", key, c.Pos(rs.Pos()), c.Src(res))
+		return true
+	})
+	r.Count("E5.function-dict-never-empty", n)
+	r.Floor("E5.function-dict-never-empty", 3)
+}
